@@ -559,6 +559,11 @@ func buildTree(nodes []Node, salt uint32, rng *rand.Rand, extremes bool) {
 				h.Time = 0xffffffff
 			case 6:
 				h.Nonce = 0
+			case 7:
+				// wall-clock corners of daylight-saving zones (the harness runs with TZ=Europe/Warsaw): the hour the clock shows
+				// twice (2023-10-29 00:00–01:59 UTC), the hour it skips (2024-03-31 01:00 UTC), a leap day, the epoch + 1 day
+				dst := []uint32{1698537600, 1698539400, 1698541199, 1698541200, 1698543000, 1711846800, 1711848600, 1709164800, 86400, 951782400}
+				h.Time = dst[rng.Intn(len(dst))]
 			}
 		}
 		nodes[i].Hdr = h
